@@ -38,6 +38,7 @@ type Cfg struct {
 	ExternalTLS  bool // with ImplicitTLS: the TLS layer is the caller's own, Server.TLSConfig stays nil
 	InsecureAuth bool
 	AuthBackend  bool
+	NoMechs      bool // the auth-capable session offers an empty (non-nil) mechanism list
 	LMTPBackend  bool
 	UTF8         bool
 	RequireTLS   bool
@@ -123,6 +124,9 @@ func (s *Server) tlsConfig() *tls.Config {
 func Start(cfg Cfg) *Server {
 	be := rec.New()
 	be.AuthCapable = cfg.AuthBackend
+	if cfg.NoMechs {
+		be.Mechs = []string{}
+	}
 	be.LMTPCapable = cfg.LMTPBackend
 	return StartWith(cfg, be, be)
 }
